@@ -182,7 +182,8 @@ class C14(object):
                          'reused_parser.after_a_failed_parse',
                          'model_desc.builds_with_log_files_registered',
                          'run_parameters_on_reused_solver.judged',
-                         'block.judged.with_a_blank_between_name_and_time_zero_marker')
+                         'block.judged.with_a_blank_between_name_and_time_zero_marker',
+                         'reserved_name_line_read_by_a_solver.judged')
 
     def n_cases(self, tier):
         return 300 if tier == 'quick' else 20000
@@ -283,6 +284,25 @@ class C14(object):
                 if outcome == 'accepted' and bad.split('\n')[-1] not in msg_:
                     rec.violate('malformed_run_parameter_not_reported', {'line': bad, 'maxtime_read': p_.MaxTime,
                                                                          'tolerance_read': p_.Err_Tolerance})
+        if case['cseed'] % 5 == 1:
+            # a line that defines the solver's own step counter (or another reserved name) is reported by the solver object that reads
+            # the block - with equation reduction on or off - and never read as an ordinary equation
+            from sfc_models.equation_solver import EquationSolver as _ES
+            base_text = build_text(case, 'none')
+            x_ = case['names'][0]
+            for bad in ('k = 0.25*%s' % x_, 'k = 2.0', 'lambda = 0.5*%s' % x_):
+                for red_ in (True, False):
+                    outcome = 'accepted'
+                    try:
+                        with contextlib.redirect_stdout(io.StringIO()):
+                            sv_ = _ES(run_equation_reduction=red_)
+                            sv_.ParseString(bad + '\n' + base_text)
+                    except Exception as e:
+                        outcome = type(e).__name__
+                    rec.count('reserved_name_line_read_by_a_solver.judged')
+                    if outcome == 'accepted':
+                        rec.violate('line_defining_a_reserved_name_not_reported', {'line': bad, 'equation_reduction': red_})
+                        break
         variants = {}
         for mode in ('none', 'plain', 'hostile'):
             text = build_text(case, mode)
